@@ -306,6 +306,7 @@ func (s *SFlowDatagram) DecodeFromBytes(data []byte, df gopacket.DecodeFeedback)
 		df.SetTruncated()
 		return errors.New("SFlow datagram too short")
 	}
+	s.FlowSamples, s.CounterSamples = s.FlowSamples[:0], s.CounterSamples[:0]
 	data, s.DatagramVersion = data[4:], binary.BigEndian.Uint32(data[:4])
 	data, agentAddressType = data[4:], SFlowIPType(binary.BigEndian.Uint32(data[:4]))
 	// agent address + subAgentID + sequence + uptime + sampleCount = agentAddr + 16.
